@@ -788,6 +788,135 @@ theorem sort_spec {cfg : Cfg} (hs : CfgStd cfg) {lt : α → α → Bool} (ho : 
     rw [List.append_nil] at h2
     exact h2.trans (newWithData_perm hs.toCfgLayout.left_gt _ vs)
 
+/-! ## `Add` of an element that is not smaller than any held one; removal of the last slot
+
+Both hold for the pinned configuration (whatever `parent` is, as long as `parent i < i`): F1 and F2 are
+not reachable through these two operations. -/
+
+/-- `Add v` when no held element is greater than `v`: `pushUp` stops at once (its one comparison is with
+a held element, since `parent n < n`), the array is simply extended -/
+theorem add_eq_of_max {cfg : Cfg} (hc : CfgOK cfg) (lt : α → α → Bool) (h : H α) (v : α)
+    (hmax : ∀ x ∈ h.data, lt v x = false) :
+    add cfg lt h v = (({ h with data := h.data ++ [v] } : H α).report h.len, h.len) := by
+  simp only [add, pushUp]
+  by_cases h0 : h.len > 0
+  · rw [if_pos h0]
+    have hp : cfg.parent h.len < h.len := hc.parent_lt _ h0
+    have hg : (({ h with data := h.data ++ [v] } : H α).report h.len).get (cfg.parent h.len) = h.get (cfg.parent h.len) := by
+      have hp' : cfg.parent h.len < h.data.length := hp
+      simp [H.get, List.getD_eq_getElem?_getD, List.getElem?_append_left hp']
+    have hv : (({ h with data := h.data ++ [v] } : H α).report h.len).get h.len = v := by
+      simp [H.get, H.len, List.getD_eq_getElem?_getD]
+    rw [hg, hv, hmax _ (get_mem h _ hp)]
+    rfl
+  · rw [if_neg h0]
+
+/-- … and heap order (standard child layout) is kept -/
+theorem add_max_heap {cfg : Cfg} (hc : CfgOK cfg) {lt : α → α → Bool} (h : H α) (v : α)
+    (hmax : ∀ x ∈ h.data, lt v x = false) (hh : HeapFrom lt h 0) : HeapFrom lt (add cfg lt h v).1 0 := by
+  rw [add_eq_of_max hc lt h v hmax]
+  set h0 : H α := { h with data := h.data ++ [v] } with hh0
+  have hlen0 : h0.len = h.len + 1 := by simp [hh0, H.len]
+  have hget0 : ∀ k, k < h.len → h0.get k = h.get k := by
+    intro k hk; simp only [H.len] at hk
+    simp [hh0, H.get, List.getD_eq_getElem?_getD, List.getElem?_append_left hk]
+  have hgetn : h0.get h.len = v := by
+    simp [hh0, H.get, H.len, List.getD_eq_getElem?_getD]
+  intro k _ c hc' hcl
+  simp only [report_len, hlen0] at hcl
+  simp only [report_get]
+  by_cases hcn : c = h.len
+  · rw [hcn, hgetn, hget0 k (by omega)]
+    exact hmax _ (get_mem h k (by omega))
+  · rw [hget0 c (by omega), hget0 k (by omega)]
+    exact hh k (Nat.zero_le _) c hc' (by omega)
+
+/-- `pop(i)` of the **last** slot (`i = len - 1`): no element moves, the array is cut; holds for every
+configuration with `left i > i` (with or without sift-up: the guard `i < n` fails) -/
+theorem pop_last_data {cfg : Cfg} (hl : ∀ i, i < cfg.left i) (lt : α → α → Bool) (h : H α) (i : Nat)
+    (hi : i + 1 = h.len) : (pop cfg lt h i).1.data = h.data.take i := by
+  rw [pop_eq]
+  by_cases hn : h.len - 1 = 0
+  · rw [if_pos hn]
+    have : i = 0 := by omega
+    simp [this]
+  · rw [if_neg hn]
+    have hcl : (popCut h i).len = i := by rw [popCut_len]; omega
+    have hpd : ∀ f, pushDown cfg lt f (popCut h i) i = (popCut h i, i) := by
+      intro f
+      cases f with
+      | zero => rfl
+      | succ f =>
+        rw [pushDown_succ, if_neg]
+        have := hl i; omega
+    have hii : h.len - 1 = i := by omega
+    have hdata : (popCut h i).data = h.data.take i := by
+      have hilt : i < h.data.length := by simp only [H.len] at hi; omega
+      rw [popCut_data, hii, swap_data]
+      apply List.ext_getElem?
+      intro k
+      simp only [List.getElem?_take]
+      split
+      · rename_i hk
+        rw [List.getElem?_set_ne (by omega), List.getElem?_set_ne (by omega)]
+      · rfl
+    simp only [hpd, hcl, Nat.lt_irrefl, decide_false, Bool.and_false, Bool.false_eq_true, if_false]
+    exact hdata
+
+/-- heap order survives cutting the array -/
+theorem heapFrom_take {lt : α → α → Bool} (h h' : H α) (n : Nat) (hd : h'.data = h.data.take n)
+    (hh : HeapFrom lt h 0) : HeapFrom lt h' 0 := by
+  have hlen : h'.len ≤ n ∧ h'.len ≤ h.len := by
+    simp only [H.len, hd, List.length_take]; omega
+  have hget : ∀ k, k < h'.len → h'.get k = h.get k := by
+    intro k hk
+    have : k < n := by omega
+    simp [H.get, hd, List.getD_eq_getElem?_getD, this]
+  intro k _ c hc hcl
+  rw [hget c hcl, hget k (by omega)]
+  exact hh k (Nat.zero_le _) c hc (by omega)
+
+/-- **removing the last slot preserves heap order** -/
+theorem pop_last_heap {cfg : Cfg} (hl : ∀ i, i < cfg.left i) {lt : α → α → Bool} (h : H α) (i : Nat)
+    (hi : i + 1 = h.len) (hh : HeapFrom lt h 0) : HeapFrom lt (pop cfg lt h i).1 0 :=
+  heapFrom_take h _ i (pop_last_data hl lt h i hi) hh
+
+/-- **removing a slot whose parent is the root (or the root itself) preserves heap order** without any
+sift-up: the element moved into slot `i ≤ 2` comes from the array, so it is not smaller than the root, its
+new parent; `pushDown(i)` repairs the rest.  Hence F2 needs an interior removal at an offset `≥ 3`. -/
+theorem pop_shallow_heap {cfg : Cfg} (hs : CfgStd cfg) {lt : α → α → Bool} (ho : OrderOK lt) (h : H α)
+    (i : Nat) (hi : i < h.len) (hsh : i ≤ 2) (hh : HeapFrom lt h 0) : HeapFrom lt (pop cfg lt h i).1 0 := by
+  by_cases hlast : i + 1 = h.len
+  · exact pop_last_heap hs.toCfgLayout.left_gt h i hlast hh
+  rw [pop_eq]
+  by_cases hn : h.len - 1 = 0
+  · rw [if_pos hn]; intro k _ c _ hcl; simp [H.len] at hcl
+  rw [if_neg hn]
+  simp only [hs.noSiftUp, Bool.false_and, Bool.false_eq_true, if_false]
+  have hl : h.len - 1 < h.len := by omega
+  have h3len : (popCut h i).len = h.len - 1 := popCut_len h i
+  have h3get : ∀ k, k < h.len - 1 → (popCut h i).get k = if k = i then h.get (h.len - 1) else h.get k := by
+    intro k hk
+    rw [popCut_get h i k hk, get_swap h k hi hl, if_neg (by omega)]
+  have h2lev : ∀ p j c, (j = 2 * p + 1 ∨ j = 2 * p + 2) → (c = 2 * j + 1 ∨ c = 2 * j + 2) → c < h.len →
+      lt (h.get c) (h.get p) = false := fun p j c hj hc hcl =>
+    ho.trans (hh p (Nat.zero_le _) j hj (by omega)) (hh j (Nat.zero_le _) c hc hcl)
+  have hA : Almost lt (popCut h i) 0 i := by
+    refine ⟨?_, ?_⟩
+    · intro k _ hki c hc hcl
+      rw [h3len] at hcl
+      by_cases hci : c = i
+      · have hk : k = 0 := by omega
+        rw [h3get c hcl, if_pos hci, h3get k (by omega), if_neg hki, hk]
+        exact heap_root_min ho h hh (h.len - 1) hl
+      · rw [h3get c hcl, if_neg hci, h3get k (by omega), if_neg hki]
+        exact hh k (Nat.zero_le _) c hc (by omega)
+    · intro p _ hp c hc hcl
+      rw [h3len] at hcl
+      rw [h3get c hcl, if_neg (by omega), h3get p (by omega), if_neg (by omega)]
+      exact h2lev p i c hp hc (by omega)
+  exact pushDown_heap hs.toCfgLayout ho (popCut h i).len (popCut h i) i 0 (by omega) (Nat.zero_le _) hA
+
 /-! ## Part 4: the repaired configuration (`parent i = (i-1)/2`, `pop` sifts up) -/
 
 structure CfgRepaired (cfg : Cfg) : Prop extends CfgLayout cfg where
